@@ -72,3 +72,33 @@ Theorem C07_anchor_not_late : forall (r : rule) (sd a : Z),
   period_of (r_freq r) (cdate_of a) <= period_of (r_freq r) (cdate_of sd).
 Proof. exact anchor_not_late_period. Qed.
 Print Assumptions C07_anchor_not_late.
+
+(* ---- the date enumeration and the look-back ---- *)
+From CG Require Import Proofs.CdateP.
+
+(* model and spec enumerate the dates of a period / a scan range with one calendar conversion
+   followed by "next day" steps: that is the calendar conversion of every day of the range *)
+Theorem C07_cdates_spec : forall s n, cdates s n = map cdate_of (zseq s n).
+Proof. exact cdates_spec. Qed.
+Print Assumptions C07_cdates_spec.
+
+(* the rrule dtstart is at most 0 / 0 / 30 / 365 days after the look-back date *)
+Theorem C07_anchor_not_late_days : forall (r : rule) (sd a : Z),
+  0 < r_interval r -> safe_anchor r sd = Some a -> a <= sd + anchor_slack (r_freq r).
+Proof. exact anchor_not_late. Qed.
+Print Assumptions C07_anchor_not_late_days.
+
+(* look-back sufficiency: an occurrence on a local date before the rrule dtstart ends at or before
+   the window start A — whatever the duration, the interval, the frequency — in every zone whose
+   UTC offsets differ by at most half a day; so dropping the dates before dtstart loses nothing
+   the window can see *)
+Theorem C07_anchor_before : forall (r : rule) (A a d S : Z) (i : ivl),
+  0 < r_interval r ->
+  0 <= r_sod r < DAY ->
+  zone_spread_le (r_zone r) S -> 2 * S <= DAY ->
+  safe_anchor r (local_day (r_zone r) (A - lookback_buffer r)) = Some a ->
+  d < a ->
+  occurrence_to_interval r d = Some i ->
+  fend i <= A.
+Proof. exact anchor_before. Qed.
+Print Assumptions C07_anchor_before.
